@@ -52,6 +52,7 @@ def cells(tier, seed):
         "sig": list(range(len(SIGS))),
         "torus": ["all", "none", "mixed"],
         "D": [2, 3],
+        "roundtrip": [False, True],
     }
     core = pairwise_cover(axes, seed=20)
     rng = random.Random(seed + 20)
@@ -149,6 +150,10 @@ def _struct(cfg, cx):
     import ginjax.geometric as geom
     D = cfg["D"]
     m, in_sig, out_sig, bank = _build(cfg)
+    if cfg.get("roundtrip"):
+        # what every optimiser step, eqx.tree_at, save/load or filter_jit does to a model: the pytree is rebuilt (dict nodes come back
+        # in sorted key order).  The model's signature must not depend on it.
+        m = jax.tree_util.tree_map(lambda v: v, m)
     down = cfg.get("down", 1) if cfg["cls"] == "unet" else 0
     N = 4 if down <= 1 else 8
     if D == 3 and down > 1:
@@ -187,7 +192,7 @@ def _struct(cfg, cx):
     cx.structural("output types and channel counts", dict(got) == dict(expect), f"got {got}, requested {expect}", key=f"types:{ckey}")
     cx.structural("output type order", [q for q, _ in got] == [q for q, _ in expect] or dict(got) != dict(expect),
                   f"got order {[q for q, _ in got]}, requested {[q for q, _ in expect]}",
-                  key=f"order:cls={cfg['cls']}:equiv={cfg.get('equiv')}:sig={cfg['sig']}:D={D}")
+                  key=f"order:cls={cfg['cls']}:equiv={cfg.get('equiv')}:sig={cfg['sig']}:D={D}:roundtrip={cfg.get('roundtrip', False)}")
     ok_shape = all(tuple(out[q].shape[1:1 + D]) == shape and tuple(out[q].shape[1 + D:]) == (D,) * q[0] for q in out.keys())
     cx.structural("spatial shape / tensor shape", ok_shape, f"{ {q: out[q].shape for q in out.keys()} } for input spatial {shape}", key=f"shape:{ckey}")
     cx.structural("D and boundary flags", out.D == D and tuple(out.is_torus) == tuple(torus), f"D={out.D} is_torus={out.is_torus} (input {torus})",
